@@ -11,19 +11,16 @@ namespace Relic.Props.C02
 open Relic Relic.Xap
 
 /-- **xap_hashed_injective.** The digester's stream *is* the kept part of the file: two inputs with the same hashed stream
-    have the same `base` – for inputs without a trailer look-alike, they are the same file. -/
+    have the same `base` – for inputs that do not end in a signature frame, they are the same file. -/
 theorem xap_hashed_injective (a b : Bytes) (la lb : Nat) (da db : Digest) (ha : la ≤ a.length) (hb : lb ≤ b.length)
     (ea : digestTar (zipToTar a la) true = .ok da) (eb : digestTar (zipToTar b lb) true = .ok db)
     (hs : da.hashed = db.hashed) :
-    base a la = base b lb ∧
-    (trMagic (a.drop la) ≠ trailerMagic → trMagic (b.drop lb) ≠ trailerMagic → a = b) := by
+    base a la = base b lb ∧ (frameSize a = 0 → frameSize b = 0 → a = b) := by
   rw [digestTar_zipToTar a la ha] at ea
   rw [digestTar_zipToTar b lb hb] at eb
   cases ea; cases eb
   refine ⟨hs, fun h1 h2 => ?_⟩
-  have e1 := (C03.xap_payload_preserved a la [] ha).2.2.2.2.2 h1
-  have e2 := (C03.xap_payload_preserved b lb [] hb).2.2.2.2.2 h2
-  rw [← e1, ← e2]; exact hs
+  rw [← base_of_unsigned a la h1, ← base_of_unsigned b lb h2]; exact hs
 
 /-- **xap_accept_implies_layout.** What an acceptance by the locator pins down (file below 2^63 bytes): the file is
     `f.take n ++ header ++ blob ++ trailer`, the trailer sits at the very end and carries the magic, `TrailerSize = |blob| + 8`,
